@@ -59,3 +59,8 @@ package limiter
 //@   callsite mask: [C15:key-from-client-address] arg1 == addr
 //@   callsite LoadOrCompute: [C15:bucket-per-masked-subnet] arg1 == gk
 //@   callsite AllowN: [C15:entry-locked-and-stamped] held && arg0 == ge.l && ge.lastSeen == now && arg1 == now && arg2 == n
+
+//@ func (cl *ClientLimiter) Close() (err error)
+//@   trusted
+//@   requires cl != nil
+//@   modifies nothing
